@@ -1274,6 +1274,9 @@ func runAtomicWrite(prog *Prog, sc StaticCheck) *StaticResult {
 			return a.Block().Dominates(b.Block())
 		}
 		check(dominates(write, rename) && dominates(closeC, rename), "rename happens after the data is written and the file closed", "os.Rename is not dominated by the Write and Close of the temporary file")
+		// the rename is reached only when the write reported no error: the condition guarding it tests a value
+		// that still carries the write's error on every path
+		check(renameGuardedBy(rename, write) && renameGuardedBy(rename, closeC), "rename is reached only if Write and Close returned nil errors", "os.Rename can be reached although Write or Close reported an error (the error is overwritten before it is tested)")
 		// the temporary file lives in the destination's directory (rename within one file system)
 		sameDir := false
 		if createTemp != nil {
@@ -1341,4 +1344,135 @@ func runPublishesFresh(prog *Prog, sc StaticCheck) *StaticResult {
 		res.Failures = append(res.Failures, "no store to "+sc.Args["field"]+" and no callback call found (vacuous)")
 	}
 	return res
+}
+
+// errorOf: the error result of a call (last tuple component, or the value itself).
+func errorOf(c *ssa.Call) ssa.Value {
+	if refs := c.Referrers(); refs != nil {
+		n := c.Call.Signature().Results().Len()
+		for _, r := range *refs {
+			if ex, ok := r.(*ssa.Extract); ok && ex.Index == n-1 {
+				return ex
+			}
+		}
+	}
+	if c.Call.Signature().Results().Len() == 1 {
+		return c
+	}
+	return nil
+}
+
+// nilBranchDominates: block b is only reached through the "v == nil" outcome of a test of v.
+func nilBranchDominates(v ssa.Value, b *ssa.BasicBlock) bool {
+	for _, hb := range b.Parent().Blocks {
+		ifi, ok := hb.Instrs[len(hb.Instrs)-1].(*ssa.If)
+		if !ok {
+			continue
+		}
+		bin, ok := ifi.Cond.(*ssa.BinOp)
+		if !ok || (bin.Op != token.NEQ && bin.Op != token.EQL) {
+			continue
+		}
+		var other ssa.Value
+		if c, ok := bin.Y.(*ssa.Const); ok && c.Value == nil {
+			other = bin.X
+		} else if c, ok := bin.X.(*ssa.Const); ok && c.Value == nil {
+			other = bin.Y
+		}
+		if other != v {
+			continue
+		}
+		succ := hb.Succs[1] // NEQ: false branch means nil
+		if bin.Op == token.EQL {
+			succ = hb.Succs[0]
+		}
+		if len(succ.Preds) == 1 && (succ == b || succ.Dominates(b)) {
+			return true
+		}
+	}
+	return false
+}
+
+// carriers: the set of values v such that "v == nil implies e == nil": e itself and, as a least fixpoint, every phi
+// each of whose edges is a carrier or comes from a block reached only after some carrier was tested nil.
+func carriers(fn *ssa.Function, e ssa.Value) map[ssa.Value]bool {
+	c := map[ssa.Value]bool{e: true}
+	for changed := true; changed; {
+		changed = false
+		for _, b := range fn.Blocks {
+			for _, in := range b.Instrs {
+				phi, ok := in.(*ssa.Phi)
+				if !ok {
+					break
+				}
+				if c[phi] {
+					continue
+				}
+				all := true
+				for i, edge := range phi.Edges {
+					if c[edge] {
+						continue
+					}
+					// the edge value is known non-nil on this edge (then the merged value is non-nil and says nothing),
+					// or the edge is only taken after a carrier was tested nil
+					okEdge := errKnownNonNil(edge, b.Preds[i]) || edgeIsNonNilBranch(edge, b.Preds[i], b)
+					for v := range c {
+						if nilBranchDominates(v, b.Preds[i]) {
+							okEdge = true
+						}
+					}
+					if !okEdge {
+						all = false
+						break
+					}
+				}
+				if all {
+					c[phi] = true
+					changed = true
+				}
+			}
+		}
+	}
+	return c
+}
+
+// renameGuardedBy: the rename call executes only on paths where the error of `op` is nil.
+func renameGuardedBy(rename, op *ssa.Call) bool {
+	e := errorOf(op)
+	if e == nil {
+		return false
+	}
+	for v := range carriers(rename.Parent(), e) {
+		if nilBranchDominates(v, rename.Block()) {
+			return true
+		}
+	}
+	return false
+}
+
+// edgeIsNonNilBranch: the control-flow edge pred -> succ is itself the "v != nil" outcome of pred's test of v.
+func edgeIsNonNilBranch(v ssa.Value, pred, succ *ssa.BasicBlock) bool {
+	ifi, ok := pred.Instrs[len(pred.Instrs)-1].(*ssa.If)
+	if !ok {
+		return false
+	}
+	bin, ok := ifi.Cond.(*ssa.BinOp)
+	if !ok || (bin.Op != token.NEQ && bin.Op != token.EQL) {
+		return false
+	}
+	var other ssa.Value
+	if c, ok := bin.Y.(*ssa.Const); ok && c.Value == nil {
+		other = bin.X
+	} else if c, ok := bin.X.(*ssa.Const); ok && c.Value == nil {
+		other = bin.Y
+	}
+	if other != v {
+		return false
+	}
+	nonNil := pred.Succs[0] // NEQ: true branch
+	nilSucc := pred.Succs[1]
+	if bin.Op == token.EQL {
+		nonNil, nilSucc = pred.Succs[1], pred.Succs[0]
+	}
+	return nonNil == succ && nilSucc != succ
 }
